@@ -6,7 +6,7 @@ META = {
     "property_id": "C17",
     "technique": "Coq lemmas on the lock events of the model (reads only / one write section per update, never nested) + snapshot-atomicity theorem over serial section orders + lock-site inventory translator + logging PtpInstanceStateMutex in every port-level correspondence run, oracle ok_C17 evaluated in Coq",
     "category": "proof",
-    "text": "The model emits an acquisition event exactly where the code calls with_ref/with_mut (22 sites, inventory regenerated from the source each run and proved unchanged). Proved: Announce emission takes only read sections, one per provided TLV, for queues of any length; Announce reception takes at most one read followed by one write section that contains the whole S1 update, and the data sets change only inside it; for every serial order of sections (every interleaving a reader-writer lock admits) each value a reader extracts is the view after a whole number of write sections, so snapshots never mix two updates. On the implementation every port-level run uses a PtpInstanceStateMutex that logs each acquisition with its nesting depth; ok_C17 requires depth 0 everywhere, at most one write section per call, a write section whenever the data sets changed, reads before the write, and a single write section for the whole BMCA.",
+    "text": "Whole histories: C17_main - for EVERY set-up and EVERY event list (no hypothesis on the events) the model's own trace satisfies the complete oracle ok_C17 (never requested while held, at most one write section per call, data sets change only in a call that has one, reads precede it, a BMCA run is exactly one write section). The model emits an acquisition event exactly where the code calls with_ref/with_mut (22 sites, inventory regenerated from the source each run and proved unchanged). Proved: Announce emission takes only read sections, one per provided TLV, for queues of any length; Announce reception takes at most one read followed by one write section that contains the whole S1 update, and the data sets change only inside it; for every serial order of sections (every interleaving a reader-writer lock admits) each value a reader extracts is the view after a whole number of write sections, so snapshots never mix two updates. On the implementation every port-level run uses a PtpInstanceStateMutex that logs each acquisition with its nesting depth; ok_C17 requires depth 0 everywhere, at most one write section per call, a write section whenever the data sets changed, reads before the write, and a single write section for the whole BMCA.",
     "design_ref": "DESIGN.md section 6 (C17)",
     "level_note": "The section model abstracts std::sync::RwLock: fairness, poisoning and the actual thread scheduler are trusted, not modelled (a Gallina model cannot exhibit them). The lock-shape lemmas cover Announce emission/reception; the other handlers take at most one read section by inspection of the model and are checked on traces. Theorems closed under the global context.",
 }
